@@ -73,7 +73,7 @@ func TestPropConcurrent(t *testing.T) {
 			n := rapid.IntRange(20, 60).Draw(t, "nops")
 			for i := 0; i < n; i++ {
 				var o op
-				kinds := []string{"nodeWrite", "nodeWrite", "edgeWrite", "read", "read", "verify", "create", "pause"}
+				kinds := []string{"nodeWrite", "nodeWrite", "edgeWrite", "read", "read", "verify", "create", "pause", "maint", "login"}
 				if rootChurn {
 					if w == 0 {
 						kinds = []string{"rootSwap", "rootSwap", "rootSwap", "nodeWrite", "pause"}
@@ -262,6 +262,26 @@ func TestPropConcurrent(t *testing.T) {
 							}
 						} else if len(m.Data) != 0 && !isStopping() {
 							fail("worker %d: storeVerify: %s", w, m.Data)
+						}
+					case "maint":
+						m, err := request(nc, "admin.storeMaint", nil)
+						if err != nil {
+							if !isStopping() {
+								fail("worker %d: storeMaint got no reply: %v", w, err)
+							}
+						} else if len(m.Data) != 0 && !isStopping() {
+							fail("worker %d: storeMaint: %s", w, m.Data)
+						}
+					case "login":
+						pts := data.Points{{Type: data.PointTypeEmail, Text: "admin@admin.com", Key: "0"}, {Type: data.PointTypePass, Text: "admin", Key: "0"}}
+						b, _ := pts.ToPb()
+						m, err := request(nc, "auth.user", b)
+						if err != nil {
+							if !isStopping() {
+								fail("worker %d: auth.user got no reply: %v", w, err)
+							}
+						} else if ns, derr := data.PbDecodeNodesRequest(m.Data); !isStopping() && !rootChurn && (derr != nil || len(ns) == 0) {
+							fail("worker %d: login of the admin user failed under load: %v %d nodes", w, derr, len(ns))
 						}
 					case "create":
 						id := fmt.Sprintf("c%dx%d", w, seq)
